@@ -57,6 +57,7 @@ pub fn dispatch(args: &[String]) -> i32 {
     match cmd.as_str() {
         "smoke" => smoke::main(&a),
         "conn" => conn::main(&a),
+        "handler-panic" => conn::handler_panic(&a),
         "c05" => c05::main(&a),
         "c03" => c03::main(&a),
         "c06" => c06::main(&a),
